@@ -17,6 +17,17 @@ CHECKS = {
         note='Bounded: trees <= 4-5 nodes, selector pools per configuration; CssDecl.tla trusted as reading of '
              'Selectors 3/4; documents built through the bs4 API.',
         technique='TLA+ reference semantics + TLC state enumeration, replayed into the implementation (spec->code conformance)'),
+    'C02': dict(
+        category='model_checking',
+        text='TLC enumerates every sibling row (<= 4-5 nodes over element a/b, text, comment; under an element, at top level, '
+             'detached) x every (a, b) of a square x the four pseudo-classes x "of S" filters, and every accepted spelling of '
+             '(a, b) from Nth.tla; the design-level theorems closed-form <=> exists n and ParseNth(Spell(a,b)) = (a,b) are '
+             'TLC invariants; every state is replayed into soupsieve.select; random larger trees are recorded from the real '
+             'code and validated by TLC against CssDecl (Trace_Select).',
+        design_ref='§6 C02',
+        note='Bounded: |a|,|b| <= 7 exhaustively plus {100, 40000} (TLC 32-bit integers); rows <= 5; CssDecl.NthHolds trusted as '
+             'the reading of Selectors 4 / CSS Syntax 3 An+B.',
+        technique='TLA+ An+B definition + micro-syntax, TLC enumeration replayed into the code; TLC trace validation of recorded selects'),
 }
 
 PENDING = {}
